@@ -60,3 +60,26 @@ Theorem C13_line_set : forall l i s, line_ok l -> i < 256 ->
   qline_set_symbol (pack_qline l) s i = Val (pack_qline (line_set_symbol l s i)).
 Proof. exact line_set_refined. Qed.
 Print Assumptions C13_line_set.
+
+From QwtModel Require Import LeavesLine LeavesLineOk.
+
+(* ---- T3: the word-level DataLine functions REGENERATED from src/qvector/mod.rs on every run
+   (tools/gen_leaves.py -> Gen/LeavesLine.v: typed, operation-by-operation translation of the Rust
+   text) are equal to the hand-written word view on all in-range arguments; together with
+   C13_line_get / C13_line_rank / C13_line_set the theorems hold of what the source says now. *)
+Theorem C13_source_line_normalize : forall ws symbol, symbol < 256 ->
+  g_qline_normalize ws symbol = qline_normalize ws symbol.
+Proof. exact g_qline_normalize_ok. Qed.
+Print Assumptions C13_source_line_normalize.
+Theorem C13_source_line_set_symbol : forall ws symbol i, symbol < 256 -> i < 256 ->
+  g_qline_set_symbol ws symbol i = qline_set_symbol ws symbol i.
+Proof. exact g_qline_set_symbol_ok. Qed.
+Print Assumptions C13_source_line_set_symbol.
+Theorem C13_source_line_get_unchecked : forall ws i, i < 2 ^ 64 ->
+  g_qline_get_unchecked ws i = qline_get_unchecked ws i.
+Proof. exact g_qline_get_unchecked_ok. Qed.
+Print Assumptions C13_source_line_get_unchecked.
+Theorem C13_source_line_rank_unchecked : forall ws symbol i, symbol < 256 -> i < 2 ^ 64 ->
+  g_qline_rank_unchecked ws symbol i = qline_rank_unchecked ws symbol i.
+Proof. exact g_qline_rank_unchecked_ok. Qed.
+Print Assumptions C13_source_line_rank_unchecked.
